@@ -1,29 +1,55 @@
-(** * C04 — Relation targets stay consistent; removing a target detaches, never corrupts.  (PARTIAL)
+(** * C04 — Relation targets stay consistent; removing a target detaches, never corrupts.  (PARTIAL: see the end of this comment)
 
     Proved here are the MECHANISM lemmas that keep relation targets valid, in general worlds:
     - table creation validates every relation before changing anything: a target that is neither
       the zero entity nor alive, a non-relation component, a component the archetype lacks or a
       missing target make createTable fail with the state unchanged; hence every table has, at
       the moment it is created or recycled, only targets that are zero or alive;
-    - SetRelations computes the new target list by changing exactly the named relation components
-      (last assignment wins), rejects components the entity lacks, and reports "unchanged" only if
-      every named target already is the current one;
+    - SetRelations computes the new target list by changing exactly the named relation components,
+      rejects (state unchanged) a component named twice, a component the entity lacks and a component
+      that is not a relation component, and reports "unchanged" only if every named target already
+      is the current one (the check for duplicates and non-relation components repairs a defect found
+      by the relation-tier proofs: such calls used to "move" the entity into its own table and lose it);
     - table lookup by target compares generations: a stale handle never selects the table of a newer
       incarnation of the same ID (exact lookup and query matching);
     - freeing a table removes it from the active list and (with several relations) from every
       target lookup, pushes it on the free list; removing a target drops exactly its lookup keys;
       the order in which the lookup maps are traversed is irrelevant.
-    NOT proved: the world-level invariant "every target of every alive entity is zero or alive" over
-    all histories with target removal, batch removal, Shrink, Reset and table recycling. It needs
-    the exactness of the relation lookups (every active table listed exactly once per target, free
-    tables nowhere) as an invariant of all operations; the relation-free tier of the storage proofs
-    does not cover it. It is tied by the `relations` correspondence stream: relation lookups,
-    free lists and targets are part of the internal dump compared after every step, randomised
-    scenarios drive the known hard cases (two targets of one table dying in one batch, the same
-    target in two components, recycling after Shrink), and an oracle checks on the
-    implementation's own trace that every target of an alive entity is zero or alive. *)
+    RELATION TIER (Rel2Defs/Rel2Struct/Rel2Remove/Rel2SetRel), proved for EVERY state satisfying the
+    storage + relation + cache invariant [St2] (no assumption that relation components are absent):
+    - [C04_targets_zero_or_alive]: every relation target of every stored entity is the zero entity
+      or a stored (alive) entity: the first sentence of the property, from the invariant alone;
+    - [C04_remove_entity]: removing ANY live entity x (target or not, with any observers registered)
+      preserves the invariant; x is dead afterwards and its handle rejected; every other entity keeps
+      all its components and values, and each of its relation targets is unchanged except that a
+      target equal to x becomes the zero entity ("detaches, never corrupts"); if the call fails, the
+      observables are unchanged and the cause is a dead handle or a panicking observer callback;
+      without observers it fails exactly for dead handles ([C04_remove_fails_only_for_dead]) and
+      [C04_remove_target_detaches] spells out the success case;
+    - [C04_set_relations]: SetRelations on a live entity assigns exactly the named relation
+      components (the target last assigned is the target read back, all other targets, all
+      components and values, and every other entity unchanged), preserves the invariant, and fails -
+      with the state completely unchanged - exactly for a locked world, a dead entity, an empty or
+      duplicate list, a component the entity lacks or that is not a relation, or a dead target;
+    - table creation/recycling for valid relations never fails, registers the targets and preserves
+      the invariant ([C04_get_or_create_table]): "the reuse of per-target storage for other targets
+      never changes any other entity's targets or data and never fails for a valid call";
+    - the invariant has an executable form proved sound ([C04_checker_sound]); it is evaluated on
+      every state the correspondence streams reach (see DESIGN.md I.1) and was validated on the
+      hard cases by computation (Rel2Check: 19 scenario scripts, three 500-step fuzz histories).
+    STILL NOT PROVED (in progress: Rel2Plan packages A, D, E): that [St2] is preserved by the
+    remaining operations in relation worlds (creation/add/remove/exchange with relations, batch forms,
+    Shrink, Reset) and hence holds after every history. Until then the invariant's preservation by
+    those operations is tied by the `relations` correspondence stream (lookups, free lists, targets
+    and flags are in the dump compared after every step; scenarios drive two targets of one table
+    dying in one batch, the same target in two components, recycling after Shrink) plus the executed
+    invariant and the targets-alive oracle on the implementation's own trace.
+    Five genuine defects of the Go code were found while building this tier and are repaired in
+    /repo (a3c3b99 duplicate relation component, d31ae2e rejected batch leaves the world locked,
+    9b15de7 unregistered targets, 535125b SetRelations into the entity's own table, and earlier
+    875e7f0); see known_findings.json. *)
 From Ark Require Import Model.Base Model.Mask Model.Pool Model.Util Model.World Model.Run.
-From Ark Require Import Proofs.RelProofs Properties.Common.
+From Ark Require Import Proofs.WF Proofs.StorageA Proofs.StorageBDefs Proofs.RelProofs Proofs.Rel2Defs Proofs.Rel2Struct Proofs.Rel2Remove Proofs.Rel2SetRel Properties.Common.
 
 Theorem C04_create_table_rejects_invalid : forall s aid a rels,
   nth_error (w_archs s) aid = Some a ->
@@ -52,9 +78,21 @@ Theorem C04_set_relations_changes_exactly_the_named : forall s t rels,
                           | Some r => snd r
                           | None => nth i (t_targets t) zero_ent end) /\
       (forall c, mk_get cm c = true -> exists tg, In (c, tg) rels)
-  | Err _ s' => s' = s /\ exists r, In r rels /\ tbl_colidx t (fst r) = None
+  | Err _ s' => s' = s /\ (rels_distinct rels = false \/ exists r, In r rels /\
+      (tbl_colidx t (fst r) = None \/
+       exists i, tbl_colidx t (fst r) = Some i /\ ck_rel (nth i (t_kinds t) (Build_ckind false false true)) = false))
   end.
 Proof. exact exchange_targets_spec. Qed.
+
+(** ... and a call that is accepted names distinct relation columns (so "the last assignment" above
+    is the only one). *)
+Theorem C04_set_relations_accepts_only_valid : forall s t rels r0 s',
+  NoDup (t_ids t) -> length (t_targets t) = length (t_ids t) ->
+  exchange_targets t rels s = Ok r0 s' ->
+  NoDup (map fst rels) /\
+  forall r, In r rels -> exists i, tbl_colidx t (fst r) = Some i /\
+                                   ck_rel (nth i (t_kinds t) (Build_ckind false false true)) = true.
+Proof. exact exchange_targets_ok_valid. Qed.
 
 Theorem C04_exact_lookup_compares_generations : forall t c i k tg1 tg2 rels,
   tbl_colidx t c = Some i -> nth_error (t_kinds t) i = Some k -> ck_rel k = true ->
@@ -85,7 +123,67 @@ Example C04_detach_example :
   snapshot_entity rel_world (3, 0%N) = Some [2; 0; 7; 0; 0; 3; 0; 0; 0]%Z.
 Proof. vm_compute. split; reflexivity. Qed.
 
-Definition C04_all := (C04_create_table_rejects_invalid, C04_created_tables_have_valid_targets,
-  C04_set_relations_changes_exactly_the_named, C04_exact_lookup_compares_generations,
+(** ** Relation tier: world-level statements for every state satisfying St2 *)
+
+Theorem C04_targets_zero_or_alive : forall s e c x, St2 s -> tgt s e c = Some x -> x = zero_ent \/ live s x = true.
+Proof. exact r2_St2_targets. Qed.
+
+Theorem C04_remove_entity : forall s e, St2 s ->
+  match storage_remove_entity e s with
+  | Ok _ s' =>
+      St2 s' /\ live s e = true /\ live s' e = false /\ alive s' e = false /\
+      (forall e', e' <> e -> live s' e' = live s e' /\ (forall c, val s' e' c = val s e' c) /\
+         (forall c, tgt s' e' c = r2c_detached e (tgt s e' c))) /\
+      frame_user s s' /\ length (pe (w_pool s')) = length (pe (w_pool s))
+  | Err _ s' => r2c_rejected s s' /\
+      (live s e = false \/ has_obs s EvRemoveEntity = true \/ has_obs s EvRemoveRelations = true)
+  end.
+Proof. exact r2c_remove_entity_spec. Qed.
+
+Theorem C04_remove_fails_only_for_dead : forall s e, St2 s ->
+  has_obs s EvRemoveEntity = false -> has_obs s EvRemoveRelations = false ->
+  (is_err (storage_remove_entity e s) = true <-> live s e = false).
+Proof. exact r2c_remove_fails_only_dead_noobs. Qed.
+
+Theorem C04_remove_target_detaches : forall s x, St2 s -> live s x = true ->
+  has_obs s EvRemoveEntity = false -> has_obs s EvRemoveRelations = false ->
+  exists u s', storage_remove_entity x s = Ok u s' /\ St2 s' /\ live s' x = false /\ alive s' x = false /\
+    forall e', e' <> x -> live s' e' = live s e' /\ (forall c, val s' e' c = val s e' c) /\
+      (forall c, tgt s' e' c = r2c_detached x (tgt s e' c)).
+Proof. exact r2c_remove_target_detaches_noobs. Qed.
+
+Theorem C04_set_relations : forall s e (rels : list rel), St2 s -> room s ->
+  has_obs s EvRemoveRelations = false -> has_obs s EvAddRelations = false ->
+  (forall r, In r rels -> r2b_handle_ok s (snd r)) ->
+  match w_set_relations e rels s with
+  | Ok _ s' =>
+      St2 s' /\ is_locked s = false /\ live s e = true /\ rels <> [] /\ NoDup (map fst rels) /\
+      (forall r, In r rels -> val s e (fst r) <> None /\ is_rel_comp s (fst r) = true /\
+                              (snd r = zero_ent \/ live s (snd r) = true)) /\
+      live s' e = true /\ (forall c, val s' e c = val s e c) /\
+      (forall c, tgt s' e c = match r2b_assigned rels c with Some x => Some x | None => tgt s e c end) /\
+      r2c_others_same s s' e /\ w_pool s' = w_pool s /\ frame_user s s'
+  | Err _ s' =>
+      s' = s /\ (is_locked s = true \/ live s e = false \/ rels = [] \/ rels_distinct rels = false \/
+                 exists r, In r rels /\ (val s e (fst r) = None \/ is_rel_comp s (fst r) = false \/
+                                         (fst (snd r) <> 0 /\ alive s (snd r) = false)))
+  end.
+Proof. exact r2b_set_relations_spec_noobs. Qed.
+
+Definition C04_get_or_create_table := r2_get_or_create_table_spec.
+Definition C04_create_table := r2_create_table_spec.
+
+Theorem C04_checker_sound : forall s, st2_b s = true -> St2 s.
+Proof. exact st2_b_sound. Qed.
+
+(** Non-vacuity: reachable relation worlds satisfying St2 (by the checker), the removal and
+    SetRelations theorems instantiated on them, and the two scripts that refuted the first version of
+    the SetRelations theorem, now rejected. *)
+Definition C04_relation_examples := (r2c_ex_St2, r2c_ex_by_theorem, r2b_ex_by_theorem, r2b_regression_scripts).
+
+Definition C04_all := (C04_targets_zero_or_alive, C04_remove_entity, C04_remove_fails_only_for_dead, C04_remove_target_detaches,
+  C04_set_relations, C04_get_or_create_table, C04_create_table, C04_checker_sound, C04_relation_examples,
+  C04_create_table_rejects_invalid, C04_created_tables_have_valid_targets,
+  C04_set_relations_changes_exactly_the_named, C04_set_relations_accepts_only_valid, C04_exact_lookup_compares_generations,
   C04_free_table_bookkeeping, C04_remove_target_drops_its_keys).
 Print Assumptions C04_all.
